@@ -5,6 +5,8 @@ import ModbusModel.Props.C04
 import ModbusModel.Props.C05
 import ModbusModel.Props.C11
 import ModbusModel.Lemmas.ClientFraming
+import ModbusModel.Props.C07
+import ModbusModel.Props.C09
 /-
   C02 – Responses and exceptions reach the caller exactly as the service produced them.
 -/
@@ -180,5 +182,153 @@ example :
 example : Ready (Client.attach .tcp) { reads := [.data [0, 0, 0, 0, 0], .pending, .data [5, 255, 3, 2, 0x12, 0x34]] }
     (tcpFrame ⟨0, 255⟩ (encodeResponsePdu (.readHoldingRegisters [0x1234])) ++ []) :=
   ⟨⟨{}, rfl, rfl, rfl, rfl⟩, rfl, rfl, by decide, by decide⟩
+
+
+/-! ### both halves together -/
+
+/-- the bytes a connection task wrote -/
+def srvWritten (tr : List SrvEvent) : Bytes := tr.flatMap fun | .write bs => bs | .call _ _ => []
+
+/-- **end to end** (TCP): a client call, the library's server on the other side, and back.
+    The client (any state with a connected, idle transport) issues `req`; what it writes reaches
+    the server cut into reads in any way; the service answers call 0 with `r`; what the server
+    writes reaches the client cut into reads in any way.  Then the service was handed exactly
+    `req` under the client's unit id, once, and the call returns exactly `r` (bits padded to
+    whole bytes). -/
+theorem end_to_end_tcp (c : Client) (req : Request) (r : Response) (svc : Service) (tc ts : Transport)
+    (frame : Bytes) (hk : c.kind = .tcp)
+    (hs : requestPduSizeRaw req ≤ 253) (hc : req.canonical)
+    (hrs : responsePduSizeRaw r ≤ 253) (hrc : r.canonical) (hfc : r.functionCode.value < 0x80)
+    (hmatch : r.functionCode.value = req.functionCode.value)
+    (hsvc : svc 0 c.unit req = .reply r)
+    (henc : clientEncode .tcp (stampedHdr c) req = .ok frame)
+    -- the server's transport delivers the client's frame
+    (hsw : ts.writes = []) (hsf : ts.flushes = []) (hsfeed : ∀ e ∈ ts.reads, e.isFeed = true)
+    (hsdata : dataOf ts.reads = frame)
+    -- the client's transport delivers what the server wrote
+    (hr : Ready c tc (srvWritten (process .tcp svc ts).2.1)) :
+    (process .tcp svc ts).2.1
+        = [.call c.unit req, .write (tcpFrame ⟨c.nextTid, c.unit⟩ (encodeResponsePdu r))]
+    ∧ ∃ c' t', c.call req tc none = (.done (.ok (pad8 r)), c', t', [.write frame]) := by
+  have hst : stampedHdr c = { tid := c.nextTid, unit := c.unit } := by simp [stampedHdr, hk]
+  have henc' : tcpEncodeRequest ⟨c.nextTid, c.unit⟩ req = .ok frame := by
+    simpa [clientEncode, hst] using henc
+  have hframe := (Modbus.Props.C05.tcp_emit_request _ req frame henc').1
+  have hrl : (encodeResponsePdu r).length ≤ 253 := by rw [encodeResponsePdu_length]; exact hrs
+  have hrenc := (Modbus.Props.C09.response_intact ⟨c.nextTid, c.unit⟩ 0 r hrl).1
+  -- the server side
+  have hsrv := Modbus.Props.C07.serves_every_request_tcp svc [(⟨c.nextTid, c.unit⟩, req)] ts
+    (by simpa using hs) (by simpa using hc) hsw hsf hsfeed (by simpa [hframe] using hsdata)
+    (by
+      simp only [List.map_cons, List.map_nil, Encodable, and_true]
+      intro rsp h
+      simp only [hsvc, responseFor, Option.some.injEq] at h
+      subst h
+      exact ⟨_, by simpa [serverEncode] using hrenc, by simp [tcpFrame, be16]⟩)
+  have htrace : (process .tcp svc ts).2.1
+      = [.call c.unit req, .write (tcpFrame ⟨c.nextTid, c.unit⟩ (encodeResponsePdu r))] := by
+    rw [hsrv.2]
+    simp [expectedTrace, replyEvents, hsvc, responseFor, serverEncode, hrenc]
+  refine ⟨htrace, ?_⟩
+  -- the client side
+  rw [htrace] at hr
+  have hr' : Ready c tc (tcpFrame ⟨c.nextTid, c.unit⟩ (encodeResponsePdu r) ++ []) := by
+    simpa [srvWritten] using hr
+  exact response_reaches_caller_tcp c req tc r [] frame hk hr' hrs hrc hfc hmatch henc
+
+
+/-- **end to end** (RTU: RTU-over-TCP and the serial line – one codec, one loop) -/
+theorem end_to_end_rtu (c : Client) (req : Request) (r : Response) (svc : Service) (tc ts : Transport)
+    (frame : Bytes) (hk : c.kind = .rtu)
+    (hs : requestPduSizeRaw req ≤ 253) (hc : ∀ fc d, req ≠ .custom fc d)
+    (hrs : responsePduSizeRaw r ≤ 253) (hrc : ∀ fc d, r ≠ .custom fc d) (hfc : r.functionCode.value < 0x80)
+    (hmatch : r.functionCode.value = req.functionCode.value)
+    (hsvc : svc 0 c.unit req = .reply r)
+    (henc : clientEncode .rtu (stampedHdr c) req = .ok frame)
+    (hsw : ts.writes = []) (hsf : ts.flushes = []) (hsfeed : ∀ e ∈ ts.reads, e.isFeed = true)
+    (hsdata : dataOf ts.reads = frame)
+    (hr : Ready c tc (srvWritten (process .rtu svc ts).2.1)) :
+    (process .rtu svc ts).2.1 = [.call c.unit req, .write (rtuFrame c.unit (encodeResponsePdu r))]
+    ∧ ∃ c' t', c.call req tc none = (.done (.ok (pad8 r)), c', t', [.write frame]) := by
+  have hst : stampedHdr c = { tid := 0, unit := c.unit } := by simp [stampedHdr, hk]
+  have henc' : rtuEncodeRequest c.unit req = .ok frame := by
+    simpa [clientEncode, hst] using henc
+  have hframe : frame = rtuFrame c.unit (encodeRequestPdu req) := by
+    rw [Modbus.Props.C04.rtu_emit_request _ req frame henc']; simp [rtuFrame]
+  have hrl : (encodeResponsePdu r).length ≤ 253 := by rw [encodeResponsePdu_length]; exact hrs
+  have hrenc := (Modbus.Props.C09.response_intact ⟨0, 0⟩ c.unit r hrl).2.1
+  have hrenc' : rtuEncodeResponse c.unit (.ok r) = .ok (rtuFrame c.unit (encodeResponsePdu r)) := by
+    rw [hrenc]; simp [rtuFrame]
+  have hsrv := Modbus.Props.C07.serves_every_request_rtu svc [(c.unit, req)] ts
+    (by simpa using hs) (by simpa using hc) hsw hsf hsfeed (by simpa [hframe] using hsdata)
+    (by
+      simp only [List.map_cons, List.map_nil, Encodable, and_true]
+      intro rsp h
+      simp only [hsvc, responseFor, Option.some.injEq] at h
+      subst h
+      exact ⟨_, by simpa [serverEncode] using hrenc', by simp [rtuFrame]⟩)
+  have htrace : (process .rtu svc ts).2.1
+      = [.call c.unit req, .write (rtuFrame c.unit (encodeResponsePdu r))] := by
+    rw [hsrv.2]
+    simp [expectedTrace, replyEvents, hsvc, responseFor, serverEncode, hrenc']
+  refine ⟨htrace, ?_⟩
+  rw [htrace] at hr
+  have hr' : Ready c tc (rtuFrame c.unit (encodeResponsePdu r) ++ []) := by
+    simpa [srvWritten] using hr
+  exact response_reaches_caller_rtu c req tc r [] frame hk hr' hrs hrc hfc hmatch henc
+
+
+/-- **end to end, the service fails the request** (TCP): the exception the service returns comes
+    back to the caller as the inner error of the call, with the same code -/
+theorem end_to_end_exception_tcp (c : Client) (req : Request) (e : ExceptionCode) (svc : Service)
+    (tc ts : Transport) (frame : Bytes) (hk : c.kind = .tcp)
+    (hs : requestPduSizeRaw req ≤ 253) (hc : req.canonical) (hfc : req.functionCode.value < 0x80)
+    (hsvc : svc 0 c.unit req = .exception e)
+    (henc : clientEncode .tcp (stampedHdr c) req = .ok frame)
+    (hsw : ts.writes = []) (hsf : ts.flushes = []) (hsfeed : ∀ x ∈ ts.reads, x.isFeed = true)
+    (hsdata : dataOf ts.reads = frame)
+    (hr : Ready c tc (srvWritten (process .tcp svc ts).2.1)) :
+    (process .tcp svc ts).2.1
+        = [.call c.unit req, .write (tcpFrame ⟨c.nextTid, c.unit⟩
+            (encodeExceptionPdu { function := req.functionCode, exception := e }))]
+    ∧ ∃ c' t' e', c.call req tc none = (.done (.exception e'), c', t', [.write frame]) ∧ e'.value = e.value := by
+  have hst : stampedHdr c = { tid := c.nextTid, unit := c.unit } := by simp [stampedHdr, hk]
+  have henc' : tcpEncodeRequest ⟨c.nextTid, c.unit⟩ req = .ok frame := by
+    simpa [clientEncode, hst] using henc
+  have hframe := (Modbus.Props.C05.tcp_emit_request _ req frame henc').1
+  have hrenc : tcpEncodeResponse ⟨c.nextTid, c.unit⟩ (.error { function := req.functionCode, exception := e })
+      = .ok (tcpFrame ⟨c.nextTid, c.unit⟩ (encodeExceptionPdu { function := req.functionCode, exception := e })) := by
+    simp [tcpEncodeResponse, responseResultPduSize, encodeResponseResultAsserts, encodeExceptionAsserts, hfc,
+      encodeResponseResultPdu, tcpFrame, mbap, encodeExceptionPdu]
+  have hsrv := Modbus.Props.C07.serves_every_request_tcp svc [(⟨c.nextTid, c.unit⟩, req)] ts
+    (by simpa using hs) (by simpa using hc) hsw hsf hsfeed (by simpa [hframe] using hsdata)
+    (by
+      simp only [List.map_cons, List.map_nil, Encodable, and_true]
+      intro rsp h
+      simp only [hsvc, responseFor, Option.some.injEq] at h
+      subst h
+      exact ⟨_, by simpa [serverEncode] using hrenc, by simp [tcpFrame, be16]⟩)
+  have htrace : (process .tcp svc ts).2.1
+      = [.call c.unit req, .write (tcpFrame ⟨c.nextTid, c.unit⟩
+          (encodeExceptionPdu { function := req.functionCode, exception := e }))] := by
+    rw [hsrv.2]
+    simp [expectedTrace, replyEvents, hsvc, responseFor, serverEncode, hrenc]
+  refine ⟨htrace, ?_⟩
+  rw [htrace] at hr
+  have hr' : Ready c tc (tcpFrame ⟨c.nextTid, c.unit⟩
+      (encodeExceptionPdu { function := req.functionCode, exception := e }) ++ []) := by
+    simpa [srvWritten] using hr
+  exact exception_reaches_caller_tcp c req tc req.functionCode e [] frame hk hr' hfc rfl henc
+
+-- non-vacuity: a fresh TCP client reads two holding registers from a server whose service answers
+-- [0x1234, 0x5678]; the request reaches the server in two reads, the reply the client in three
+example :
+    let svc : Service := fun _ _ _ => .reply (.readHoldingRegisters [0x1234, 0x5678])
+    let ts : Transport := { reads := [.data [0, 0, 0, 0, 0, 6, 0xFF], .data [3, 0, 7, 0, 2]] }
+    srvWritten (process .tcp svc ts).2.1 = [0, 0, 0, 0, 0, 7, 0xFF, 3, 4, 0x12, 0x34, 0x56, 0x78]
+    ∧ ((Client.attach .tcp).call (.readHoldingRegisters 7 2)
+        { reads := [.data [0, 0, 0, 0], .pending, .data [0, 7, 0xFF, 3, 4, 0x12], .data [0x34, 0x56, 0x78]] } none).1
+      = .done (.ok (.readHoldingRegisters [0x1234, 0x5678])) := by
+  decide +kernel
 
 end Modbus.Props.C02
